@@ -42,7 +42,8 @@ def run(tier, seed, replay=None):
             runs.append((6, [dict(c, scn=c["scn"] + [c["scn"][-1]] * 4) for c in cases if c["first"] < 0][:40], 1))
         evals = nontriv = 0
         for retries, cs, orders in runs:
-            rc, out, err = vlib.run_vdrv(["supervisor"], stdin=json.dumps({"seed": seed, "max_retries": retries, "cases": cs, "orders": orders}), timeout=3000)
+            rc, out, err = vlib.run_vdrv(["supervisor"], stdin=json.dumps({"seed": seed, "max_retries": retries, "cases": cs, "orders": orders,
+                                                                             "syncer_rounds": (6 if thorough else 2) if retries == 2 else 0}), timeout=3000)
             if rc != 0:
                 raise Infra("vdrv supervisor failed rc=%s: %s" % (rc, err[-2000:]))
             res = json.loads(out)
@@ -50,7 +51,7 @@ def run(tier, seed, replay=None):
             nontriv += res["nontrivial"]
             for m in res["mismatches"] or []:
                 ex = m["extra"]
-                verdict.violation({"kind": "supervisor", "masters_in_round": ex["masters"], "no_master": ex["first"] < 0},
+                verdict.violation({"kind": "syncer-topology" if ex.get("syncer") else "supervisor", "masters_in_round": ex["masters"], "no_master": ex["first"] < 0},
                                   m["detail"] + " | scenario[round][node] = %s" % ex["scn"], {"family": "supervisor", "scenario": ex["scn"], "max_retries": retries})
     rc = verdict.finish()
     cov = {"states": mc.distinct + r.distinct, "transitions": mc.generated + r.generated, "traces_validated_against_impl": evals,
